@@ -67,6 +67,9 @@ def gen(seed: int, tier: str) -> dict[str, Any]:
         t += ref * rng.choice([0.3, 1.2])
         ops.append({"t": round(t, 6), "op": "set", "v": rng.choice([1, 2, 9]), "g": "final"})
     cfg = {"c": c, "p": p, "respond": rng.random() < 0.8, "batch": 1}
+    if c == 0 and rng.random() < 0.3 and ops[-1]["op"] in ("set", "set_skip"):
+        cfg["stop_at_last"] = True
+    cfg["shadow"] = rng.random() < 0.2
     if seed % 10 == 3 and c:
         # the rate limited outgoing queue has a backlog (other devices sending at the same time): the value telegrams leave
         # the queue later than they were created. Updates only, no periodic sending; judged where the telegrams reach the bus
@@ -115,6 +118,13 @@ def run(plan: dict[str, Any]) -> dict[str, Any]:
         dev = ExposeSensor(xknx, "ex", group_address=GroupAddress(GA), value_type="percentU8", cooldown=c,
                            periodic_send=p, respond_to_read=cfg["respond"])
         xknx.devices.async_add(dev)
+        dev2 = None
+        if cfg.get("shadow"):
+            # a second sensor of the same name (names need not be unique) on another address, updated right behind the judged one
+            dev2 = ExposeSensor(xknx, "ex", group_address=GroupAddress(GA + 8), value_type="percentU8", cooldown=c,
+                                periodic_send=p, respond_to_read=cfg["respond"])
+            xknx.devices.async_add(dev2)
+            R.extra_faults["second_sensor_of_the_same_name"] += 1
         xknx.telegram_queue.register_telegram_received_cb(seen, group_addresses=[GroupAddress(GA)], match_for_outgoing=True)
         await xknx.start()
         t0 = loop.time()
@@ -125,8 +135,12 @@ def run(plan: dict[str, Any]) -> dict[str, Any]:
             R.record("op", k, op.get("v"))
             if k == "set":
                 await dev.set(op["v"])
+                if dev2 is not None:
+                    await dev2.set((op["v"] + 1) & 0xFF)
             elif k == "set_skip":
                 await dev.set(op["v"], skip_unchanged=True)
+                if dev2 is not None:
+                    await dev2.set((op["v"] + 1) & 0xFF)
             elif k == "init":
                 dev.initialize_value(op["v"])
             elif k == "init_bad":
@@ -180,7 +194,12 @@ def run(plan: dict[str, Any]) -> dict[str, Any]:
                 loop.at(when, (lambda o=op: loop.soon_iters(o["iters"], lambda: run_now(do(o)), label="op")), label="op")
             else:
                 loop.at(when, (lambda o=op: loop.create_task(do(o))), label="op")
-        await asyncio.sleep(plan["ops"][-1]["t"] + max(c, p, 1.0) * 3 + 1.0 + (cfg["backlog"]["n"] / 20.0 if cfg.get("backlog") else 0.0))
+        if cfg.get("stop_at_last"):
+            # XKNX.stop() is called right behind the last update, while its telegram is still queued
+            await asyncio.sleep(plan["ops"][-1]["t"] + 1e-4)
+            R.extra_faults["stopped_right_behind_the_last_update"] += 1
+        else:
+            await asyncio.sleep(plan["ops"][-1]["t"] + max(c, p, 1.0) * 3 + 1.0 + (cfg["backlog"]["n"] / 20.0 if cfg.get("backlog") else 0.0))
         await xknx.stop()
 
     R.execute(main())
@@ -314,6 +333,14 @@ def run(plan: dict[str, Any]) -> dict[str, Any]:
                           f"set({op['v']}, skip_unchanged=True) at {op['t']} differs from the last value set but was never sent")
             nontrivial = True
     R.extra_faults["external_write"] += sum(1 for o in ops if o["op"] == "ext_write")
+    # every value telegram the sensor created went out (the stub interface accepts all): each of them is dispatched to the
+    # devices and the outgoing callbacks, also the one still queued when XKNX.stop() is called
+    w_put = sorted(v for (t, kind, v) in puts if kind == "write")
+    w_seen = sorted(v for (t, v) in bus_w)
+    if w_put != w_seen:
+        R.violate("C41.dispatch", "value-telegram-not-dispatched",
+                  f"value telegrams created {len(w_put)}, dispatched to the outgoing callbacks {len(w_seen)}"
+                  + (" (stop() right behind the last update)" if cfg.get("stop_at_last") else ""))
     R.check_escapes("C41.no-escape")
     abstract = [(bool(c), bool(p), cfg["respond"]), [(o["op"], o["g"]) for o in ops]]
     return R.result(nontrivial=nontrivial, abstract=abstract)
